@@ -375,6 +375,13 @@ def project_tunnel(beh, rng, sessions=("A", "B"), sizes=None, name="", big=0.03)
                 downc[k] = downc.get(k, 0) + 1
         elif act == "SrvDetach":
             att[args[0]] = False
+        elif act == "ReaderStalls":
+            # the application that reads this direction stops for a while and resumes
+            sp = session(args[0])
+            total = sp["down"] if args[1] == "down" else sp["up"]
+            if total > 0:
+                sp.setdefault("read_stalls", []).append({"dir": args[1], "at": rng.randint(0, total - 1), "ms": rng.choice([150, 400, 1200])})
+                kinds.add("reader-stall")
         elif act in ("Cut", "Freeze"):
             k = args[0]
             c = plan.get(k)
